@@ -2,6 +2,8 @@ import Gaftools.Gen.MergeNodes
 import Gaftools.Gen.Tables
 import Gaftools.Gen.IsStable
 import Gaftools.Gen.IsSecondary
+import Gaftools.Gen.SearchIv
+import Gaftools.Gen.OverlapCases
 import Gaftools.Model.Stat
 import Gaftools.Model.Gfa
 import Gaftools.Model.Gaf
@@ -35,5 +37,46 @@ theorem isStable_gen_eq_model (p : List Char) : Gen.isStable p = Gaftools.Gaf.is
 theorem isSecondary_gen_eq_model (r : Gaftools.Gaf.Rec) : Gen.isSecondary r.isPrimary r.mapq = Gaftools.Stat.isSecondary r := by
   unfold Gen.isSecondary Gaftools.Stat.isSecondary
   cases r.isPrimary <;> simp <;> omega
+
+/-- `utils.search_intervals` as translated from the source (recursion by fuel) is the model's `searchIv`, for every
+    non-negative start index (the only ones that occur: the search starts at 0 and only ever moves `start` to `mid + 1`) -/
+theorem searchIv_gen_eq_model (iv : List Seg) (qs qe : Int) (fuel : Nat) (s e : Int) (hs : 0 ≤ s) :
+    Gen.searchIv iv qs qe fuel s e = Conv.searchIv iv qs qe fuel s e := by
+  first
+    | rfl
+    | (induction fuel generalizing s e with
+       | zero => rfl
+       | succ fuel ih =>
+         unfold Gen.searchIv Conv.searchIv
+         by_cases hse : s ≤ e
+         · have hm : ¬ (s + (e - s) / 2 < 0) := by omega
+           simp only [hse, if_true, hm, if_false]
+           cases hget : iv[(s + (e - s) / 2).toNat]? with
+           | none => rfl
+           | some sg =>
+             simp only []
+             by_cases h1 : qe ≤ sg.so
+             · simp only [h1, if_true]; exact ih s _ hs
+             · have h2 : (qs ≥ sg.so + (sg.en - sg.so)) ↔ (qs ≥ sg.en) := by omega
+               by_cases h3 : qs ≥ sg.en
+               · simp only [h1, if_false, h2.2 h3, h3, if_true]; exact ih _ e (by omega)
+               · have h4 : ¬ (qs ≥ sg.so + (sg.en - sg.so)) := fun h => h3 (h2.1 h)
+                 simp only [h1, if_false, h4, h3]
+         · simp only [hse, if_false])
+
+/-- the overlap tests of `to_unstable` and of `convert_coord`, as translated from the source, are the model's `overlapCase` -/
+theorem overlapCaseConv_gen_eq_model (sg : Seg) (qs qe : Int) : Gen.overlapCaseConv sg qs qe = Conv.overlapCase sg qs qe := by
+  first
+    | rfl
+    | (unfold Gen.overlapCaseConv Conv.overlapCase
+       repeat' split
+       all_goals first | rfl | omega)
+
+theorem overlapCaseIndex_gen_eq_model (sg : Seg) (qs qe : Int) : Gen.overlapCaseIndex sg qs qe = Conv.overlapCase sg qs qe := by
+  first
+    | rfl
+    | (unfold Gen.overlapCaseIndex Conv.overlapCase
+       repeat' split
+       all_goals first | rfl | omega)
 
 end Gaftools.TieA
